@@ -18,11 +18,19 @@ pub fn property<C: Codec>() -> Property {
     }
 }
 
-pub fn gen_event_script(rng: &mut Rng, cfg: &crate::verif::nodes::outstation::OutCfg, len: usize) -> Vec<Op> {
+pub fn gen_event_script(
+    rng: &mut Rng,
+    cfg: &crate::verif::nodes::outstation::OutCfg,
+    len: usize,
+) -> Vec<Op> {
     let mut script = Vec::new();
     let mut clock = 1_000_000u64;
     if cfg.unsolicited && rng.chance(3, 4) {
-        script.push(Op::Confirm { uns: true, seq: ConfSel::Expected, from: Who::Master });
+        script.push(Op::Confirm {
+            uns: true,
+            seq: ConfSel::Expected,
+            from: Who::Master,
+        });
         if rng.chance(2, 3) {
             script.push(unsol_op(rng, true));
         }
@@ -44,16 +52,28 @@ pub fn gen_event_script(rng: &mut Rng, cfg: &crate::verif::nodes::outstation::Ou
             30..=49 => script.push(read_op(gen_event_read(rng, &cfg.points))),
             50..=61 => script.push(Op::Confirm {
                 uns: false,
-                seq: if rng.chance(4, 5) { ConfSel::Expected } else { ConfSel::Offset(rng.range(1, 15) as u8) },
+                seq: if rng.chance(4, 5) {
+                    ConfSel::Expected
+                } else {
+                    ConfSel::Offset(rng.range(1, 15) as u8)
+                },
                 from: Who::Master,
             }),
             62..=73 => script.push(Op::Confirm {
                 uns: true,
-                seq: if rng.chance(4, 5) { ConfSel::Expected } else { ConfSel::Offset(rng.range(1, 15) as u8) },
+                seq: if rng.chance(4, 5) {
+                    ConfSel::Expected
+                } else {
+                    ConfSel::Offset(rng.range(1, 15) as u8)
+                },
                 from: Who::Master,
             }),
             74..=81 => script.push(Op::SleepRel {
-                base: if rng.chance(3, 4) { TimeBase::ConfirmTimeout } else { TimeBase::RetryDelay },
+                base: if rng.chance(3, 4) {
+                    TimeBase::ConfirmTimeout
+                } else {
+                    TimeBase::RetryDelay
+                },
                 delta_ms: *rng.pick(&[-1i64, 0, 1, 1]),
                 since_last_tx: rng.bool(),
             }),
@@ -197,7 +217,17 @@ impl Oracle for LedgerOracle {
         let newest_before_step: Option<u64> = self.ledger.events.keys().next_back().copied();
         if step.connected || step.disconnected {
             // no confirmation can arrive for responses of the old connection
-            if self.sol.as_ref().map(|c| !c.ids.is_empty()).unwrap_or(false) || self.unsol.as_ref().map(|c| !c.ids.is_empty()).unwrap_or(false) {
+            if self
+                .sol
+                .as_ref()
+                .map(|c| !c.ids.is_empty())
+                .unwrap_or(false)
+                || self
+                    .unsol
+                    .as_ref()
+                    .map(|c| !c.ids.is_empty())
+                    .unwrap_or(false)
+            {
                 self.unconfirmed_event_response = true;
                 self.bump("probe.reconnect_with_unconfirmed_events");
             }
@@ -212,22 +242,54 @@ impl Oracle for LedgerOracle {
         // (a) user transactions of this step; discards take effect after the step's fragments were examined
         let mut discarded_now: Vec<u64> = Vec::new();
         for tl in &step.timeline {
-            if let TL::Update { op, info, t_ms, at_lock, .. } = tl {
-                let before: BTreeSet<u64> = self.ledger.events.values().filter(|e| e.state == EvState::Discarded).map(|e| e.id).collect();
+            if let TL::Update {
+                op,
+                info,
+                t_ms,
+                at_lock,
+                ..
+            } = tl
+            {
+                let before: BTreeSet<u64> = self
+                    .ledger
+                    .events
+                    .values()
+                    .filter(|e| e.state == EvState::Discarded)
+                    .map(|e| e.id)
+                    .collect();
                 if let Err(msg) = self.ledger.apply_update(op, *info, *t_ms) {
                     return Some(Violation::new(
                         "C03/vii update-info",
-                        if msg.contains("oldest") { "discard-not-oldest" } else { "bookkeeping" },
+                        if msg.contains("oldest") {
+                            "discard-not-oldest"
+                        } else {
+                            "bookkeeping"
+                        },
                         format!("step {}: {}", step.op_index, msg),
                     ));
                 }
                 for e in self.ledger.events.values() {
                     if e.state == EvState::Discarded && !before.contains(&e.id) {
                         discarded_now.push(e.id);
-                        self.counters.entry("probe.overflow_discard".into()).and_modify(|x| *x += 1).or_insert(1);
-                        let carried = self.sol.as_ref().map(|c| c.ids.contains(&e.id)).unwrap_or(false) || self.unsol.as_ref().map(|c| c.ids.contains(&e.id)).unwrap_or(false);
+                        self.counters
+                            .entry("probe.overflow_discard".into())
+                            .and_modify(|x| *x += 1)
+                            .or_insert(1);
+                        let carried = self
+                            .sol
+                            .as_ref()
+                            .map(|c| c.ids.contains(&e.id))
+                            .unwrap_or(false)
+                            || self
+                                .unsol
+                                .as_ref()
+                                .map(|c| c.ids.contains(&e.id))
+                                .unwrap_or(false);
                         if carried {
-                            self.counters.entry("probe.overflow_hit_written_event".into()).and_modify(|x| *x += 1).or_insert(1);
+                            self.counters
+                                .entry("probe.overflow_hit_written_event".into())
+                                .and_modify(|x| *x += 1)
+                                .or_insert(1);
                         }
                     }
                 }
@@ -239,17 +301,26 @@ impl Oracle for LedgerOracle {
 
         // a solicited response whose confirmation did not come in time is no longer awaiting it: an identical fragment sent
         // later is a new response (a READ repeated from idle is executed afresh), not a re-send
-        if step.callbacks.iter().any(|(_, cb)| matches!(cb, Cb::Info(s) if s.starts_with("solicited_confirm_timeout"))) {
+        if step
+            .callbacks
+            .iter()
+            .any(|(_, cb)| matches!(cb, Cb::Info(s) if s.starts_with("solicited_confirm_timeout")))
+        {
             self.sol = None;
             self.last_sol_bytes = None;
         }
-        let sent_confirm: Option<(bool, u8)> = step.sent.as_ref().filter(|_| step.link_up).and_then(|s| {
-            if s.bytes.len() == 2 && s.bytes[1] == refapp::FUNC_CONFIRM && s.src == _world.cfg.master_addr && s.bytes[0] & 0xC0 == 0xC0 {
-                Some((s.bytes[0] & 0x10 != 0, s.bytes[0] & 0x0F))
-            } else {
-                None
-            }
-        });
+        let sent_confirm: Option<(bool, u8)> =
+            step.sent.as_ref().filter(|_| step.link_up).and_then(|s| {
+                if s.bytes.len() == 2
+                    && s.bytes[1] == refapp::FUNC_CONFIRM
+                    && s.src == _world.cfg.master_addr
+                    && s.bytes[0] & 0xC0 == 0xC0
+                {
+                    Some((s.bytes[0] & 0x10 != 0, s.bytes[0] & 0x0F))
+                } else {
+                    None
+                }
+            });
         // normally a CONFIRM releases the events of a response sent in an earlier step and the next fragment follows;
         // but the confirmed response may also have been transmitted earlier in this very step (e.g. an unsolicited
         // response triggered by a queued update, then the peer's CONFIRM): then the fragments are examined first
@@ -263,74 +334,118 @@ impl Oracle for LedgerOracle {
         let mut events_reported_in_step = 0usize;
         for phase in phases {
             if phase == 0 {
-        // (b) releases
-        let mut groups: Vec<(Vec<u64>, Option<([usize; 3], [usize; 8])>)> = Vec::new();
-        let mut cur: Option<Vec<u64>> = None;
-        for (_, cb) in &step.callbacks {
-            match cb {
-                Cb::BeginConfirm => cur = Some(Vec::new()),
-                Cb::EventCleared(id) => match cur.as_mut() {
-                    Some(v) => v.push(*id),
-                    None => {
-                        return Some(Violation::new(
-                            "C03/iii event-cleared-outside-confirm",
-                            "",
-                            format!("step {}: event_cleared({}) outside begin_confirm/end_confirm", step.op_index, id),
-                        ))
+                // (b) releases
+                let mut groups: Vec<(Vec<u64>, Option<([usize; 3], [usize; 8])>)> = Vec::new();
+                let mut cur: Option<Vec<u64>> = None;
+                for (_, cb) in &step.callbacks {
+                    match cb {
+                        Cb::BeginConfirm => cur = Some(Vec::new()),
+                        Cb::EventCleared(id) => match cur.as_mut() {
+                            Some(v) => v.push(*id),
+                            None => {
+                                return Some(Violation::new(
+                                    "C03/iii event-cleared-outside-confirm",
+                                    "",
+                                    format!(
+                                    "step {}: event_cleared({}) outside begin_confirm/end_confirm",
+                                    step.op_index, id
+                                ),
+                                ))
+                            }
+                        },
+                        Cb::EndConfirm { classes, types } => {
+                            groups.push((cur.take().unwrap_or_default(), Some((*classes, *types))));
+                        }
+                        _ => {}
                     }
-                },
-                Cb::EndConfirm { classes, types } => {
-                    groups.push((cur.take().unwrap_or_default(), Some((*classes, *types))));
                 }
-                _ => {}
-            }
-        }
-        for (cleared, counts) in &groups {
-            let carrier_kind;
-            let expected: Vec<u64> = match sent_confirm {
-                Some((true, seq)) if self.unsol.as_ref().map(|c| c.seq == seq).unwrap_or(false) => {
-                    carrier_kind = "unsolicited";
-                    let c = self.unsol.as_mut().unwrap();
-                    c.confirmed = true;
-                    c.ids.clone()
-                }
-                Some((false, seq)) if self.sol.as_ref().map(|c| c.seq == seq).unwrap_or(false) => {
-                    carrier_kind = "solicited";
-                    let c = self.sol.as_mut().unwrap();
-                    c.confirmed = true;
-                    c.ids.clone()
-                }
-                Some(_) => {
-                    carrier_kind = "no-matching-response";
-                    Vec::new()
-                }
-                None => {
-                    carrier_kind = "no-confirm-sent";
-                    Vec::new()
-                }
-            };
-            let cleared_set: BTreeSet<u64> = cleared.iter().copied().collect();
-            // events discarded by an overflow after they were written cannot be cleared any more
-            let expected_set: BTreeSet<u64> = expected
-                .iter()
-                .copied()
-                .filter(|id| self.ledger.events.get(id).map(|e| e.state == EvState::Live || discarded_now.contains(id)).unwrap_or(false))
-                .collect();
-            let expected_live: BTreeSet<u64> = expected_set.iter().copied().filter(|id| self.ledger.events[id].state == EvState::Live).collect();
-            if cleared_set.len() != cleared.len() {
-                return Some(Violation::new("C03/iii released-twice", "", format!("step {}: ids cleared more than once: {:?}", step.op_index, cleared)));
-            }
-            let extra: Vec<u64> = cleared_set.iter().copied().filter(|id| !expected_set.contains(id)).collect();
-            let missing: Vec<u64> = expected_live.iter().copied().filter(|id| !cleared_set.contains(id)).collect();
-            if !extra.is_empty() {
-                let other = if self.unsol.as_ref().map(|c| extra.iter().any(|i| c.ids.contains(i))).unwrap_or(false) && carrier_kind != "unsolicited" {
-                    "events-of-unconfirmed-unsolicited"
-                } else if self.sol.as_ref().map(|c| extra.iter().any(|i| c.ids.contains(i))).unwrap_or(false) && carrier_kind != "solicited" {
-                    "events-of-unconfirmed-solicited"
-                } else {
-                    "events-carried-by-no-outstanding-response"
-                };
-                return Some(Violation::new(
+                for (cleared, counts) in &groups {
+                    let carrier_kind;
+                    let expected: Vec<u64> = match sent_confirm {
+                        Some((true, seq))
+                            if self.unsol.as_ref().map(|c| c.seq == seq).unwrap_or(false) =>
+                        {
+                            carrier_kind = "unsolicited";
+                            let c = self.unsol.as_mut().unwrap();
+                            c.confirmed = true;
+                            c.ids.clone()
+                        }
+                        Some((false, seq))
+                            if self.sol.as_ref().map(|c| c.seq == seq).unwrap_or(false) =>
+                        {
+                            carrier_kind = "solicited";
+                            let c = self.sol.as_mut().unwrap();
+                            c.confirmed = true;
+                            c.ids.clone()
+                        }
+                        Some(_) => {
+                            carrier_kind = "no-matching-response";
+                            Vec::new()
+                        }
+                        None => {
+                            carrier_kind = "no-confirm-sent";
+                            Vec::new()
+                        }
+                    };
+                    let cleared_set: BTreeSet<u64> = cleared.iter().copied().collect();
+                    // events discarded by an overflow after they were written cannot be cleared any more
+                    let expected_set: BTreeSet<u64> = expected
+                        .iter()
+                        .copied()
+                        .filter(|id| {
+                            self.ledger
+                                .events
+                                .get(id)
+                                .map(|e| e.state == EvState::Live || discarded_now.contains(id))
+                                .unwrap_or(false)
+                        })
+                        .collect();
+                    let expected_live: BTreeSet<u64> = expected_set
+                        .iter()
+                        .copied()
+                        .filter(|id| self.ledger.events[id].state == EvState::Live)
+                        .collect();
+                    if cleared_set.len() != cleared.len() {
+                        return Some(Violation::new(
+                            "C03/iii released-twice",
+                            "",
+                            format!(
+                                "step {}: ids cleared more than once: {:?}",
+                                step.op_index, cleared
+                            ),
+                        ));
+                    }
+                    let extra: Vec<u64> = cleared_set
+                        .iter()
+                        .copied()
+                        .filter(|id| !expected_set.contains(id))
+                        .collect();
+                    let missing: Vec<u64> = expected_live
+                        .iter()
+                        .copied()
+                        .filter(|id| !cleared_set.contains(id))
+                        .collect();
+                    if !extra.is_empty() {
+                        let other = if self
+                            .unsol
+                            .as_ref()
+                            .map(|c| extra.iter().any(|i| c.ids.contains(i)))
+                            .unwrap_or(false)
+                            && carrier_kind != "unsolicited"
+                        {
+                            "events-of-unconfirmed-unsolicited"
+                        } else if self
+                            .sol
+                            .as_ref()
+                            .map(|c| extra.iter().any(|i| c.ids.contains(i)))
+                            .unwrap_or(false)
+                            && carrier_kind != "solicited"
+                        {
+                            "events-of-unconfirmed-solicited"
+                        } else {
+                            "events-carried-by-no-outstanding-response"
+                        };
+                        return Some(Violation::new(
                     "C03/iii-iv released-without-confirmed-carrier",
                     format!("confirmed={} released={}", carrier_kind, other),
                     format!(
@@ -338,57 +453,67 @@ impl Oracle for LedgerOracle {
                         step.op_index, extra, carrier_kind, expected
                     ),
                 ));
-            }
-            if !missing.is_empty() {
-                return Some(Violation::new(
+                    }
+                    if !missing.is_empty() {
+                        return Some(Violation::new(
                     "C03/iii confirmed-events-not-released",
                     carrier_kind,
                     format!("step {}: response confirmed but its events {:?} were not released (cleared {:?})", step.op_index, missing, cleared),
                 ));
-            }
-            for id in &cleared_set {
-                match self.ledger.events.get_mut(id) {
-                    Some(e) if e.state == EvState::Live => e.state = EvState::Released,
-                    Some(e) if e.state == EvState::Discarded && discarded_now.contains(id) => e.state = EvState::Released,
-                    Some(e) => {
-                        return Some(Violation::new(
-                            "C03/iii released-not-live",
-                            format!("{:?}", e.state),
-                            format!("step {}: event {} was cleared but its state is {:?}", step.op_index, id, e.state),
-                        ))
                     }
-                    None => {
-                        return Some(Violation::new(
-                            "C03/iii released-unknown-id",
-                            "",
-                            format!("step {}: event_cleared({}) for an id never handed out", step.op_index, id),
-                        ))
+                    for id in &cleared_set {
+                        match self.ledger.events.get_mut(id) {
+                            Some(e) if e.state == EvState::Live => e.state = EvState::Released,
+                            Some(e)
+                                if e.state == EvState::Discarded && discarded_now.contains(id) =>
+                            {
+                                e.state = EvState::Released
+                            }
+                            Some(e) => {
+                                return Some(Violation::new(
+                                    "C03/iii released-not-live",
+                                    format!("{:?}", e.state),
+                                    format!(
+                                        "step {}: event {} was cleared but its state is {:?}",
+                                        step.op_index, id, e.state
+                                    ),
+                                ))
+                            }
+                            None => {
+                                return Some(Violation::new(
+                                    "C03/iii released-unknown-id",
+                                    "",
+                                    format!(
+                                        "step {}: event_cleared({}) for an id never handed out",
+                                        step.op_index, id
+                                    ),
+                                ))
+                            }
+                        }
                     }
-                }
-            }
-            released_in_step += cleared_set.len();
-            if carrier_kind == "solicited" {
-                self.sol = None;
-            } else if carrier_kind == "unsolicited" {
-                self.unsol = None;
-            }
-            if !cleared_set.is_empty() && self.unconfirmed_event_response {
-                self.nontrivial = true;
-            }
-            self.ledger.recompute_overflow_after_confirm();
-            // (vi) counts reported to the application
-            if let Some((classes, types)) = counts {
-                // discards of this step are already reflected in the library's counters
-                let mut want_c = [0usize; 3];
-                let mut want_t = [0usize; 8];
-                for e in self.ledger.live() {
-                    if e.class >= 1 {
-                        want_c[e.class as usize - 1] += 1;
+                    released_in_step += cleared_set.len();
+                    if carrier_kind == "solicited" {
+                        self.sol = None;
+                    } else if carrier_kind == "unsolicited" {
+                        self.unsol = None;
                     }
-                    want_t[type_slot(e.ptype)] += 1;
-                }
-                if *classes != want_c || *types != want_t {
-                    return Some(Violation::new(
+                    if !cleared_set.is_empty() && self.unconfirmed_event_response {
+                        self.nontrivial = true;
+                    }
+                    self.ledger.recompute_overflow_after_confirm();
+                    // (vi) counts reported to the application
+                    if let Some((classes, types)) = counts {
+                        // discards of this step are already reflected in the library's counters
+                        let mut want_c = [0usize; 3];
+                        let mut want_t = [0usize; 8];
+                        for e in self.ledger.live() {
+                            if e.class >= 1 {
+                                want_c[e.class as usize - 1] += 1;
+                            }
+                            want_t[type_slot(e.ptype)] += 1;
+                        }
+                        if *classes != want_c || *types != want_t {
+                            return Some(Violation::new(
                         "C03/vi end-confirm-counts",
                         "",
                         format!(
@@ -396,91 +521,131 @@ impl Oracle for LedgerOracle {
                             step.op_index, classes, types, want_c, want_t
                         ),
                     ));
+                        }
+                    }
                 }
-            }
-        }
-        if released_in_step > 0 {
-            self.bump("probe.events_released");
-        }
-
+                if released_in_step > 0 {
+                    self.bump("probe.events_released");
+                }
             } else {
-        // (c) transmitted fragments
-        let req_seq = step.sent.as_ref().map(|s| s.bytes.first().copied().unwrap_or(0) & 0x0F);
-        let is_read_from_master = step
-            .sent
-            .as_ref()
-            .map(|s| s.bytes.len() >= 2 && s.bytes[1] == refapp::FUNC_READ && s.bytes[0] & 0xF0 == 0xC0 && s.src == _world.cfg.master_addr && s.dest == _world.cfg.outstation_addr)
-            .unwrap_or(false);
-        for rx in &step.received {
-            let frag = match &rx.frag {
-                Some(f) => f,
-                None => continue, // C12 judges undecodable fragments
-            };
-            if frag.func != refapp::FUNC_RESPONSE && frag.func != refapp::FUNC_UNSOL_RESPONSE {
-                continue;
-            }
-            let is_unsol_frag = frag.func == refapp::FUNC_UNSOL_RESPONSE;
-            let last = if is_unsol_frag { &mut self.last_unsol_bytes } else { &mut self.last_sol_bytes };
-            let same_bytes = last.as_ref() == Some(&rx.bytes);
-            *last = Some(rx.bytes.clone());
-            // a genuine re-send repeats a response that is still awaiting confirmation; identical octets after the
-            // carrier was confirmed are a new response that happens to encode the same
-            let carrier_outstanding = if is_unsol_frag { self.unsol.as_ref() } else { self.sol.as_ref() }.map(|c| !c.confirmed && c.seq == frag.ctrl.seq).unwrap_or(false);
-            let resend = same_bytes && carrier_outstanding;
-            let meas = refapp::measurements(frag);
-            let events: Vec<&refapp::Meas> = meas.iter().filter(|m| m.is_event).collect();
-            if resend && !events.is_empty() {
-                // an identical fragment was already transmitted in this session (echo or unsolicited retry, see C05);
-                // its events were accounted for the first time
-                self.bump("probe.fragment_resent");
-                continue;
-            }
-            let unsol = frag.func == refapp::FUNC_UNSOL_RESPONSE;
-            let newest_at_write = crate::verif::sout::newest_event_at_write(step, rx.order, newest_before_step);
-            // (i) every reported event is a live recorded event with exactly the recorded contents
-            let mut ids: Vec<u64> = Vec::new();
-            for m in &events {
-                // several recorded events may carry identical contents: prefer the oldest one that keeps the order
-                // ascending (the order itself is still checked below for unambiguous events)
-                let candidates: Vec<&crate::verif::models::ledger::LedgerEvent> = self
-                    .ledger
-                    .events
-                    .values()
-                    .filter(|e| e.state == EvState::Live || (e.state == EvState::Discarded && discarded_now.contains(&e.id)))
-                    .filter(|e| !ids.contains(&e.id))
-                    // only events that existed when the fragment was written
-                    .filter(|e| newest_at_write.map(|n| e.id <= n).unwrap_or(true))
-                    .filter(|e| Ledger::matches(e, m))
-                    .collect();
-                let last = ids.last().copied();
-                let ascending = |e: &&&crate::verif::models::ledger::LedgerEvent| last.map(|l| e.id > l).unwrap_or(true);
-                // events that are still live are preferred over ones discarded during this very step
-                let found = candidates
-                    .iter()
-                    .filter(|e| e.state == EvState::Live)
-                    .find(ascending)
-                    .or_else(|| candidates.iter().find(|e| e.state == EvState::Live))
-                    .or_else(|| candidates.iter().find(ascending))
-                    .or_else(|| candidates.first())
-                    .copied();
-                match found {
-                    Some(e) => ids.push(e.id),
-                    None => {
-                        let same_point: Vec<String> = self
+                // (c) transmitted fragments
+                let req_seq = step
+                    .sent
+                    .as_ref()
+                    .map(|s| s.bytes.first().copied().unwrap_or(0) & 0x0F);
+                let is_read_from_master = step
+                    .sent
+                    .as_ref()
+                    .map(|s| {
+                        s.bytes.len() >= 2
+                            && s.bytes[1] == refapp::FUNC_READ
+                            && s.bytes[0] & 0xF0 == 0xC0
+                            && s.src == _world.cfg.master_addr
+                            && s.dest == _world.cfg.outstation_addr
+                    })
+                    .unwrap_or(false);
+                for rx in &step.received {
+                    let frag = match &rx.frag {
+                        Some(f) => f,
+                        None => continue, // C12 judges undecodable fragments
+                    };
+                    if frag.func != refapp::FUNC_RESPONSE
+                        && frag.func != refapp::FUNC_UNSOL_RESPONSE
+                    {
+                        continue;
+                    }
+                    let is_unsol_frag = frag.func == refapp::FUNC_UNSOL_RESPONSE;
+                    let last = if is_unsol_frag {
+                        &mut self.last_unsol_bytes
+                    } else {
+                        &mut self.last_sol_bytes
+                    };
+                    let same_bytes = last.as_ref() == Some(&rx.bytes);
+                    *last = Some(rx.bytes.clone());
+                    // a genuine re-send repeats a response that is still awaiting confirmation; identical octets after the
+                    // carrier was confirmed are a new response that happens to encode the same
+                    let carrier_outstanding = if is_unsol_frag {
+                        self.unsol.as_ref()
+                    } else {
+                        self.sol.as_ref()
+                    }
+                    .map(|c| !c.confirmed && c.seq == frag.ctrl.seq)
+                    .unwrap_or(false);
+                    let resend = same_bytes && carrier_outstanding;
+                    let meas = refapp::measurements(frag);
+                    let events: Vec<&refapp::Meas> = meas.iter().filter(|m| m.is_event).collect();
+                    if resend && !events.is_empty() {
+                        // an identical fragment was already transmitted in this session (echo or unsolicited retry, see C05);
+                        // its events were accounted for the first time
+                        self.bump("probe.fragment_resent");
+                        continue;
+                    }
+                    let unsol = frag.func == refapp::FUNC_UNSOL_RESPONSE;
+                    let newest_at_write = crate::verif::sout::newest_event_at_write(
+                        step,
+                        rx.order,
+                        newest_before_step,
+                    );
+                    // (i) every reported event is a live recorded event with exactly the recorded contents
+                    let mut ids: Vec<u64> = Vec::new();
+                    for m in &events {
+                        // several recorded events may carry identical contents: prefer the oldest one that keeps the order
+                        // ascending (the order itself is still checked below for unambiguous events)
+                        let candidates: Vec<&crate::verif::models::ledger::LedgerEvent> = self
                             .ledger
                             .events
                             .values()
-                            .filter(|e| e.ptype == m.ptype && e.index as u32 == m.index)
-                            .map(|e| format!("#{} {:?} v={} f={:#04x} t={}", e.id, e.state, e.value, e.flags, e.time))
+                            .filter(|e| {
+                                e.state == EvState::Live
+                                    || (e.state == EvState::Discarded
+                                        && discarded_now.contains(&e.id))
+                            })
+                            .filter(|e| !ids.contains(&e.id))
+                            // only events that existed when the fragment was written
+                            .filter(|e| newest_at_write.map(|n| e.id <= n).unwrap_or(true))
+                            .filter(|e| Ledger::matches(e, m))
                             .collect();
-                        let kind = if same_point.is_empty() {
-                            "no-event-of-that-point"
-                        } else if self.ledger.events.values().any(|e| e.state != EvState::Live && Ledger::matches(e, m)) {
-                            "matches-only-released-or-discarded-event"
-                        } else {
-                            "contents-differ-from-recorded"
+                        let last = ids.last().copied();
+                        let ascending = |e: &&&crate::verif::models::ledger::LedgerEvent| {
+                            last.map(|l| e.id > l).unwrap_or(true)
                         };
-                        return Some(Violation::new(
+                        // events that are still live are preferred over ones discarded during this very step
+                        let found = candidates
+                            .iter()
+                            .filter(|e| e.state == EvState::Live)
+                            .find(ascending)
+                            .or_else(|| candidates.iter().find(|e| e.state == EvState::Live))
+                            .or_else(|| candidates.iter().find(ascending))
+                            .or_else(|| candidates.first())
+                            .copied();
+                        match found {
+                            Some(e) => ids.push(e.id),
+                            None => {
+                                let same_point: Vec<String> = self
+                                    .ledger
+                                    .events
+                                    .values()
+                                    .filter(|e| e.ptype == m.ptype && e.index as u32 == m.index)
+                                    .map(|e| {
+                                        format!(
+                                            "#{} {:?} v={} f={:#04x} t={}",
+                                            e.id, e.state, e.value, e.flags, e.time
+                                        )
+                                    })
+                                    .collect();
+                                let kind = if same_point.is_empty() {
+                                    "no-event-of-that-point"
+                                } else if self
+                                    .ledger
+                                    .events
+                                    .values()
+                                    .any(|e| e.state != EvState::Live && Ledger::matches(e, m))
+                                {
+                                    "matches-only-released-or-discarded-event"
+                                } else {
+                                    "contents-differ-from-recorded"
+                                };
+                                return Some(Violation::new(
                             "C03/i reported-event-not-in-ledger",
                             kind,
                             format!(
@@ -488,55 +653,77 @@ impl Oracle for LedgerOracle {
                                 step.op_index, m.ptype, m.index, m.group, m.var, m.value, m.flags, m.time, same_point
                             ),
                         ));
+                            }
+                        }
                     }
-                }
-            }
-            // (ii) oldest first
-            for w in ids.windows(2) {
-                if w[1] < w[0] {
-                    return Some(Violation::new(
-                        "C03/ii not-oldest-first",
-                        "within-fragment",
-                        format!("step {}: events reported in the order {:?}", step.op_index, ids),
-                    ));
-                }
-            }
-            if !unsol {
-                if frag.ctrl.fir {
-                    self.series_max = None;
-                    self.series_ids.clear();
-                } else if let (Some(prev), Some(first)) = (self.series_max, ids.first()) {
-                    if *first < prev {
-                        return Some(Violation::new(
+                    // (ii) oldest first
+                    for w in ids.windows(2) {
+                        if w[1] < w[0] {
+                            return Some(Violation::new(
+                                "C03/ii not-oldest-first",
+                                "within-fragment",
+                                format!(
+                                    "step {}: events reported in the order {:?}",
+                                    step.op_index, ids
+                                ),
+                            ));
+                        }
+                    }
+                    if !unsol {
+                        if frag.ctrl.fir {
+                            self.series_max = None;
+                            self.series_ids.clear();
+                        } else if let (Some(prev), Some(first)) = (self.series_max, ids.first()) {
+                            if *first < prev {
+                                return Some(Violation::new(
                             "C03/ii not-oldest-first",
                             "across-fragments",
                             format!("step {}: fragment starts with event {} after an earlier fragment of the series reported {}", step.op_index, first, prev),
                         ));
+                            }
+                        }
                     }
-                }
-            }
-            // (v) no older live event of the same type and class may be skipped
-            let in_series: BTreeSet<u64> = if unsol { BTreeSet::new() } else { self.series_ids.clone() };
-            for id in &ids {
-                let e = &self.ledger.events[id];
-                let skipped = self
-                    .ledger
-                    .events
-                    .values()
-                    .filter(|o| o.state == EvState::Live && o.id < e.id && o.ptype == e.ptype && o.class == e.class)
-                    .filter(|o| !ids.contains(&o.id) && !in_series.contains(&o.id))
-                    .filter(|o| live_at_start.contains(&o.id))
-                    .map(|o| o.id)
-                    .next();
-                if let Some(o) = skipped {
-                    let hidden_by = if self.unsol.as_ref().map(|c| c.ids.contains(&o)).unwrap_or(false) {
-                        "older-event-written-by-unconfirmed-unsolicited"
-                    } else if self.sol.as_ref().map(|c| c.ids.contains(&o)).unwrap_or(false) {
-                        "older-event-written-by-unconfirmed-solicited"
+                    // (v) no older live event of the same type and class may be skipped
+                    let in_series: BTreeSet<u64> = if unsol {
+                        BTreeSet::new()
                     } else {
-                        "older-event-skipped"
+                        self.series_ids.clone()
                     };
-                    return Some(Violation::new(
+                    for id in &ids {
+                        let e = &self.ledger.events[id];
+                        let skipped = self
+                            .ledger
+                            .events
+                            .values()
+                            .filter(|o| {
+                                o.state == EvState::Live
+                                    && o.id < e.id
+                                    && o.ptype == e.ptype
+                                    && o.class == e.class
+                            })
+                            .filter(|o| !ids.contains(&o.id) && !in_series.contains(&o.id))
+                            .filter(|o| live_at_start.contains(&o.id))
+                            .map(|o| o.id)
+                            .next();
+                        if let Some(o) = skipped {
+                            let hidden_by = if self
+                                .unsol
+                                .as_ref()
+                                .map(|c| c.ids.contains(&o))
+                                .unwrap_or(false)
+                            {
+                                "older-event-written-by-unconfirmed-unsolicited"
+                            } else if self
+                                .sol
+                                .as_ref()
+                                .map(|c| c.ids.contains(&o))
+                                .unwrap_or(false)
+                            {
+                                "older-event-written-by-unconfirmed-solicited"
+                            } else {
+                                "older-event-skipped"
+                            };
+                            return Some(Violation::new(
                         "C03/v unreleased-event-not-offered-again",
                         hidden_by,
                         format!(
@@ -544,29 +731,49 @@ impl Oracle for LedgerOracle {
                             step.op_index, id, e.ptype, e.index, e.class, o
                         ),
                     ));
-                }
-            }
-            // (v') a complete single-fragment answer to an unlimited class READ carries every live event of that class
-            if !unsol && is_read_from_master && Some(frag.ctrl.seq) == req_seq && frag.ctrl.fir && frag.ctrl.fin {
-                if let Some(sent) = &step.sent {
-                    if let Ok((headers, _)) = refapp::decode_objects(&sent.bytes[2..], false) {
-                        for h in &headers {
-                            if h.group == 60 && (2..=4).contains(&h.var) && h.qualifier == 0x06 {
-                                let class = h.var - 1;
-                                let missing: Vec<u64> = self
-                                    .ledger
-                                    .events
-                                    .values()
-                                    .filter(|e| e.state == EvState::Live && e.class == class && live_at_start.contains(&e.id) && !ids.contains(&e.id))
-                                    .map(|e| e.id)
-                                    .collect();
-                                if !missing.is_empty() {
-                                    let why = if self.unsol.as_ref().map(|c| missing.iter().any(|i| c.ids.contains(i))).unwrap_or(false) {
-                                        "written-by-unconfirmed-unsolicited"
-                                    } else {
-                                        "not-offered"
-                                    };
-                                    return Some(Violation::new(
+                        }
+                    }
+                    // (v') a complete single-fragment answer to an unlimited class READ carries every live event of that class
+                    if !unsol
+                        && is_read_from_master
+                        && Some(frag.ctrl.seq) == req_seq
+                        && frag.ctrl.fir
+                        && frag.ctrl.fin
+                    {
+                        if let Some(sent) = &step.sent {
+                            if let Ok((headers, _)) =
+                                refapp::decode_objects(&sent.bytes[2..], false)
+                            {
+                                for h in &headers {
+                                    if h.group == 60
+                                        && (2..=4).contains(&h.var)
+                                        && h.qualifier == 0x06
+                                    {
+                                        let class = h.var - 1;
+                                        let missing: Vec<u64> = self
+                                            .ledger
+                                            .events
+                                            .values()
+                                            .filter(|e| {
+                                                e.state == EvState::Live
+                                                    && e.class == class
+                                                    && live_at_start.contains(&e.id)
+                                                    && !ids.contains(&e.id)
+                                            })
+                                            .map(|e| e.id)
+                                            .collect();
+                                        if !missing.is_empty() {
+                                            let why = if self
+                                                .unsol
+                                                .as_ref()
+                                                .map(|c| missing.iter().any(|i| c.ids.contains(i)))
+                                                .unwrap_or(false)
+                                            {
+                                                "written-by-unconfirmed-unsolicited"
+                                            } else {
+                                                "not-offered"
+                                            };
+                                            return Some(Violation::new(
                                         "C03/v class-poll-omits-live-events",
                                         why,
                                         format!(
@@ -574,55 +781,86 @@ impl Oracle for LedgerOracle {
                                             step.op_index, class, ids, missing
                                         ),
                                     ));
+                                        }
+                                    }
                                 }
                             }
                         }
                     }
-                }
-            }
-            // (v'') the same for count-limited and by-type event READs: a complete single-fragment answer carries, header by
-            // header, the oldest events that match (up to the count) and have not been taken by an earlier header
-            if !unsol && is_read_from_master && Some(frag.ctrl.seq) == req_seq && frag.ctrl.fir && frag.ctrl.fin && discarded_now.is_empty() {
-                if let Some(sent) = &step.sent {
-                    if let Ok((headers, _)) = refapp::decode_objects(&sent.bytes[2..], false) {
-                        let mut modelled = true;
-                        let mut taken: Vec<u64> = Vec::new();
-                        for h in &headers {
-                            let limit: Option<usize> = match h.qualifier {
-                                0x06 => None,
-                                0x07 | 0x08 => Some(h.count),
-                                _ => {
-                                    // ranges etc.: only static objects can be addressed that way
-                                    if h.group == 60 || refapp::ALL_TYPES.iter().any(|t| crate::verif::nodes::outstation::event_group(*t) == h.group) {
-                                        modelled = false;
+                    // (v'') the same for count-limited and by-type event READs: a complete single-fragment answer carries, header by
+                    // header, the oldest events that match (up to the count) and have not been taken by an earlier header
+                    if !unsol
+                        && is_read_from_master
+                        && Some(frag.ctrl.seq) == req_seq
+                        && frag.ctrl.fir
+                        && frag.ctrl.fin
+                        && discarded_now.is_empty()
+                    {
+                        if let Some(sent) = &step.sent {
+                            if let Ok((headers, _)) =
+                                refapp::decode_objects(&sent.bytes[2..], false)
+                            {
+                                let mut modelled = true;
+                                let mut taken: Vec<u64> = Vec::new();
+                                for h in &headers {
+                                    let limit: Option<usize> = match h.qualifier {
+                                        0x06 => None,
+                                        0x07 | 0x08 => Some(h.count),
+                                        _ => {
+                                            // ranges etc.: only static objects can be addressed that way
+                                            if h.group == 60
+                                                || refapp::ALL_TYPES.iter().any(|t| {
+                                                    crate::verif::nodes::outstation::event_group(*t)
+                                                        == h.group
+                                                })
+                                            {
+                                                modelled = false;
+                                            }
+                                            continue;
+                                        }
+                                    };
+                                    let by_class = if h.group == 60 && (2..=4).contains(&h.var) {
+                                        Some(h.var - 1)
+                                    } else {
+                                        None
+                                    };
+                                    let by_type = refapp::ALL_TYPES.iter().copied().find(|t| {
+                                        crate::verif::nodes::outstation::event_group(*t) == h.group
+                                            && h.group != 60
+                                    });
+                                    if by_class.is_none() && by_type.is_none() {
+                                        continue;
                                     }
-                                    continue;
+                                    let mut cands: Vec<u64> = self
+                                        .ledger
+                                        .events
+                                        .values()
+                                        .filter(|e| {
+                                            e.state == EvState::Live
+                                                && live_at_start.contains(&e.id)
+                                                && !taken.contains(&e.id)
+                                        })
+                                        .filter(|e| {
+                                            by_class.map(|c| e.class == c).unwrap_or(true)
+                                                && by_type.map(|t| e.ptype == t).unwrap_or(true)
+                                        })
+                                        .map(|e| e.id)
+                                        .collect();
+                                    cands.sort();
+                                    if let Some(l) = limit {
+                                        cands.truncate(l);
+                                    }
+                                    taken.extend(cands);
                                 }
-                            };
-                            let by_class = if h.group == 60 && (2..=4).contains(&h.var) { Some(h.var - 1) } else { None };
-                            let by_type = refapp::ALL_TYPES.iter().copied().find(|t| crate::verif::nodes::outstation::event_group(*t) == h.group && h.group != 60);
-                            if by_class.is_none() && by_type.is_none() {
-                                continue;
-                            }
-                            let mut cands: Vec<u64> = self
-                                .ledger
-                                .events
-                                .values()
-                                .filter(|e| e.state == EvState::Live && live_at_start.contains(&e.id) && !taken.contains(&e.id))
-                                .filter(|e| by_class.map(|c| e.class == c).unwrap_or(true) && by_type.map(|t| e.ptype == t).unwrap_or(true))
-                                .map(|e| e.id)
-                                .collect();
-                            cands.sort();
-                            if let Some(l) = limit {
-                                cands.truncate(l);
-                            }
-                            taken.extend(cands);
-                        }
-                        if modelled {
-                            let missing: Vec<u64> = taken.iter().copied().filter(|id| !ids.contains(id)).collect();
-                            if !missing.is_empty() {
-                                self.bump("probe.limited_read_checked");
-                                return Some(Violation::new(
+                                if modelled {
+                                    let missing: Vec<u64> = taken
+                                        .iter()
+                                        .copied()
+                                        .filter(|id| !ids.contains(id))
+                                        .collect();
+                                    if !missing.is_empty() {
+                                        self.bump("probe.limited_read_checked");
+                                        return Some(Violation::new(
                                     "C03/v event-read-omits-live-events",
                                     if headers.iter().any(|h| matches!(h.qualifier, 0x07 | 0x08)) { "count-limited" } else { "unlimited" },
                                     format!(
@@ -630,38 +868,42 @@ impl Oracle for LedgerOracle {
                                         step.op_index, ids, taken, missing
                                     ),
                                 ));
-                            }
-                            if headers.iter().any(|h| matches!(h.qualifier, 0x07 | 0x08)) {
-                                self.bump("probe.limited_read_checked");
+                                    }
+                                    if headers.iter().any(|h| matches!(h.qualifier, 0x07 | 0x08)) {
+                                        self.bump("probe.limited_read_checked");
+                                    }
+                                }
                             }
                         }
                     }
-                }
-            }
-            events_reported_in_step += ids.len();
-            if !unsol {
-                if let Some(m) = ids.last() {
-                    self.series_max = Some(*m);
-                }
-                self.series_ids.extend(ids.iter().copied());
-            }
-            if frag.ctrl.con {
-                // a response that replaces an unconfirmed one leaves the old one's events unreleased
-                let slot = if unsol { &mut self.unsol } else { &mut self.sol };
-                if let Some(old) = slot {
-                    if !old.confirmed && !old.ids.is_empty() {
-                        self.unconfirmed_event_response = true;
+                    events_reported_in_step += ids.len();
+                    if !unsol {
+                        if let Some(m) = ids.last() {
+                            self.series_max = Some(*m);
+                        }
+                        self.series_ids.extend(ids.iter().copied());
+                    }
+                    if frag.ctrl.con {
+                        // a response that replaces an unconfirmed one leaves the old one's events unreleased
+                        let slot = if unsol {
+                            &mut self.unsol
+                        } else {
+                            &mut self.sol
+                        };
+                        if let Some(old) = slot {
+                            if !old.confirmed && !old.ids.is_empty() {
+                                self.unconfirmed_event_response = true;
+                            }
+                        }
+                        *slot = Some(Carrier {
+                            seq: frag.ctrl.seq,
+                            ids: ids.clone(),
+                            confirmed: false,
+                        });
+                    } else if !unsol {
+                        self.sol = None;
                     }
                 }
-                *slot = Some(Carrier {
-                    seq: frag.ctrl.seq,
-                    ids: ids.clone(),
-                    confirmed: false,
-                });
-            } else if !unsol {
-                self.sol = None;
-            }
-        }
             }
         }
         if events_reported_in_step > 0 {
@@ -669,7 +911,17 @@ impl Oracle for LedgerOracle {
         }
         // a wait that lets a carrier time out
         if let Op::Sleep(_) | Op::SleepRel { .. } = step.op {
-            if self.sol.as_ref().map(|c| !c.ids.is_empty()).unwrap_or(false) || self.unsol.as_ref().map(|c| !c.ids.is_empty()).unwrap_or(false) {
+            if self
+                .sol
+                .as_ref()
+                .map(|c| !c.ids.is_empty())
+                .unwrap_or(false)
+                || self
+                    .unsol
+                    .as_ref()
+                    .map(|c| !c.ids.is_empty())
+                    .unwrap_or(false)
+            {
                 self.unconfirmed_event_response = true;
                 self.bump("probe.wait_with_unconfirmed_events");
             }
